@@ -11,8 +11,54 @@ ASSUMPTIONS = ['corpus-bounded', 'C07 (skip reports exactly the bytes consumed) 
 TRUSTED = ['rustc MIR of the emitted code']
 
 
+def retained_copy_is_infallible(rep, rule, prog):
+    """get_bytes(Some(ptr), len) copies a chunk the decoder has ALREADY consumed (the retained unknown field): its length
+    has nothing to do with what is left in the transport, so a reader that serves this case from the pointer must not
+    refuse on it - every Err the function can build lies on the `ptr == None` side"""
+    import mirlib
+    n = 0
+    for b in sorted(prog.bodies.values(), key=lambda b: b.id):
+        if b.crate != 'pilota' or b.name != 'get_bytes' or 'TInputProtocol' not in (b.impl_trait or '') or b.argc < 3:
+            continue
+        if not any(cs.name == 'from_raw_parts' and any(x and x[0] == 'arg' and x[1] == 2 for a in cs.args() for x in mirlib.subexprs(a)) for cs in b.calls()):
+            continue      # does not serve the Some(ptr) case from the pointer (the unchecked reader re-splits its transport)
+        n += 1
+        key = '%s|%s|Some(ptr) copy cannot fail' % (rule, b.id)
+        errs = []
+        for bi, bb in enumerate(b.bbs):
+            if bb['cleanup']:
+                continue
+            builds = any(st.get('r', {}).get('k') == 'agg' and st['r']['kind'].endswith('Result::Err') for st in bb['st'])
+            t = bb['t']
+            if t['k'] == 'call' and t['f'].get('c', {}).get('fn', {}).get('name') == 'from_residual':
+                builds = True
+            if not builds:
+                continue
+            none_side = False
+            for cond, val, sbb, tb in b.edge_guards(bi):
+                c = cond
+                if c[0] == 'discr' and c[1][0] == 'arg' and c[1][1] == 2 and (val == 0 or (isinstance(val, tuple) and val[0] == 'not' and 1 in val[1])):
+                    none_side = True
+                if c[0] == 'call' and c[1].endswith('::is_none') and val not in (0,) and any(x and x[0] == 'arg' and x[1] == 2 for x in mirlib.subexprs(c)):
+                    none_side = True
+                if c[0] == 'call' and c[1].endswith('::is_some') and val == 0 and any(x and x[0] == 'arg' and x[1] == 2 for x in mirlib.subexprs(c)):
+                    none_side = True
+            if not none_side:
+                errs.append(b.loc(bb['t'].get('ln')))
+        if errs:
+            rep.bad(rule, key, errs[0], '%s can return Err when it is given the pointer of an already consumed chunk (Err built at %s outside the `ptr == None` branch): a retained unknown field longer than what FOLLOWS it in the input is refused instead of kept' % (b.key, errs[:2]))
+        else:
+            rep.ok(rule, key, 'every Err lies on the ptr == None side', b.loc())
+    if n < 2:
+        rep.anchor_missing(rule, 'get_bytes implementations that copy from the retained pointer (found %d, expected 2: binary, compact)' % n)
+
+
 def run(ctx):
     rep = Report('C13')
+    import gen_thrift as _g
+    _g.corpus_generated(rep, 'G13.h')
+    if ctx['tier'] == 'thorough':
+        _g.corpus_generated(rep, 'G13.h', split=True)
     gen_thrift.keep_unknown(rep)
     if ctx['tier'] == 'thorough':
         gen_thrift.keep_unknown(rep, split=True)   # same rules on the split-file output
@@ -26,6 +72,7 @@ def run(ctx):
     cg = mirlib.CallGraph(prog)
     unsafe_codec.zero_copy_sites(rep, 'R13.w', prog, cg)
     unsafe_codec.reader_accounting(rep, 'R13.r', prog, cg)
+    retained_copy_is_infallible(rep, 'R13.p', prog)
     # the offset of a retained chunk is the count the skipper reports: it equals the bytes the skipper consumed
     import skippers
     skippers.default_skipper_binary_arm(rep, 'R13.k', prog)
